@@ -25,6 +25,9 @@ From FG.gen Require Import Tables_gen.
 Import ListNotations.
 Open Scope N_scope.
 
+Lemma some_inj {A} (a a' : A) : Some a = Some a' -> a = a'.
+Proof. intros H. now injection H. Qed.
+
 (** ** lists over masked words *)
 Definition tmask (E : N) (l : list N) : list N := filter (fun c => N.testbit E (To c)) l.
 
@@ -588,9 +591,9 @@ Qed.
 
 Lemma nonev_nodup mode l : gen_pseudo prom_nq v mode false = Some l -> NoDup l.
 Proof.
-  intros Hl. rewrite nonev_list in Hl. injection Hl as Hl. rewrite <- Hl. clear Hl l.
+  intros Hl. rewrite nonev_list in Hl. apply some_inj in Hl. rewrite <- Hl. clear Hl l.
   assert (N3 : NoDup (concat (map comp (seq 0 9)) ++ concat (map comp (seq 9 6)))).
-  { destruct (pseudo_exact prom_nq p Hlegal) as (l3 & E3 & _ & N3). rewrite nonev_list in E3. injection E3 as E3.
+  { destruct (pseudo_exact prom_nq p Hlegal) as (l3 & E3 & _ & N3). rewrite nonev_list in E3. apply some_inj in E3.
     rewrite <- E3 in N3. unfold ks in N3. replace (has_nq 3) with true in N3 by reflexivity.
     replace (has_q 3) with true in N3 by reflexivity. now rewrite map_app, concat_app in N3. }
   pose proof (nodup_app_inv _ _ N3) as (Nn & Nq & _).
@@ -600,7 +603,7 @@ Qed.
 
 Theorem evasion_nodup mode le : gen_pseudo prom_nq v mode true = Some le -> NoDup le.
 Proof.
-  intros Hle. destruct (gen_pseudo_evasion_filter mode) as (l & H1 & H2). rewrite H2 in Hle. injection Hle as <-.
+  intros Hle. destruct (gen_pseudo_evasion_filter mode) as (l & H1 & H2). rewrite H2 in Hle. apply some_inj in Hle. rewrite <- Hle.
   apply NoDup_filter. now apply (nonev_nodup mode).
 Qed.
 
